@@ -98,6 +98,8 @@ pub trait Fam: Sized + 'static {
     fn pinned(v: Val<Self>) -> Self::R;
     fn default_r() -> Self::R;
     fn clone_r(r: &Self::R) -> Self::R;
+    fn clone_from_r(dst: &mut Self::R, src: &Self::R);
+    fn w_clone_from(dst: &mut Self::W, src: &Self::W);
     fn get(r: &Self::R) -> &Val<Self>;
     fn borrow_id(r: &Self::R) -> (u32, u32);
     fn downgrade(r: &Self::R) -> Self::W;
@@ -243,6 +245,12 @@ macro_rules! impl_fam {
             }
             fn clone_r(r: &Self::R) -> Self::R {
                 $rc::clone(r)
+            }
+            fn clone_from_r(dst: &mut Self::R, src: &Self::R) {
+                dst.clone_from(src)
+            }
+            fn w_clone_from(dst: &mut Self::W, src: &Self::W) {
+                dst.clone_from(src)
             }
             fn get(r: &Self::R) -> &Val<Self> {
                 r
@@ -468,6 +476,9 @@ pub enum POp {
     DropLoose(u16),
     AsPtrRel(u16, u16),
     Borrow(u16),
+    /// `roots[a].clone_from(&roots[b])` / the same on two Weak handles
+    CloneFrom(u16, u16),
+    WCloneFrom(u16, u16),
     /// the shared API on a small payload type other than `Val` (f64 with NaN,
     /// f32, u8, (), [u8; 3], Option<f64>, (u8, f32))
     Misc { ty: u8, a: u8, b: u8, same: bool },
@@ -797,6 +808,30 @@ fn step<F: Fam>(s: &mut State<F>, op: &POp, i: usize) {
             let k = root!(h);
             s.obs.push(format!("{}: borrow {:?}", i, F::borrow_id(&s.roots[k])));
         }
+        POp::CloneFrom(a, b) => {
+            if s.roots.len() < 2 {
+                return;
+            }
+            let (ka, kb) = (root!(a), root!(b));
+            if ka == kb {
+                return;
+            }
+            let src: *const F::R = &s.roots[kb];
+            F::clone_from_r(&mut s.roots[ka], unsafe { &*src });
+            s.obs.push(format!("{}: clone_from id={} counts={}/{}", i, F::get(&s.roots[ka]).id, F::strong_count(&s.roots[ka]), F::weak_count(&s.roots[ka])));
+        }
+        POp::WCloneFrom(a, b) => {
+            if s.weaks.len() < 2 {
+                return;
+            }
+            let (ka, kb) = (weak!(a), weak!(b));
+            if ka == kb {
+                return;
+            }
+            let src: *const F::W = &s.weaks[kb];
+            F::w_clone_from(&mut s.weaks[ka], unsafe { &*src });
+            s.obs.push(format!("{}: wclone_from w={}/{} ptr_eq={}", i, F::w_strong(&s.weaks[ka]), F::w_weak(&s.weaks[ka]), F::w_ptr_eq(&s.weaks[ka], &s.weaks[kb])));
+        }
         POp::Misc { ty, a, b, same } => {
             flag(F_MISC_TYPES);
             s.obs.push(format!("{}: misc {}", i, F::misc(ty, a, b, same)));
@@ -839,6 +874,8 @@ fn pop_strategy() -> BoxedStrategy<POp> {
         2 => s().prop_map(POp::DropLoose),
         1 => (s(), s()).prop_map(|(a, b)| POp::AsPtrRel(a, b)),
         1 => s().prop_map(POp::Borrow),
+        2 => (s(), s()).prop_map(|(a, b)| POp::CloneFrom(a, b)),
+        2 => (s(), s()).prop_map(|(a, b)| POp::WCloneFrom(a, b)),
         2 => (any::<u8>(), any::<u8>(), any::<u8>(), any::<bool>()).prop_map(|(ty, a, b, same)| POp::Misc { ty, a, b, same }),
     ]
     .boxed()
